@@ -984,6 +984,10 @@ def run(ctx):
     ctx.attempt(r22, ctx)
     ctx.attempt(r23, ctx)
     ctx.attempt(r24_25, ctx)
+    ctx.rule("R-2.11", "P exists for every lock subset: a length guard in the block code implies that the index it protects is in range - `len(W) <= offset` before `W[offset, ...]`, the idle block may be [0-] alone (shared with C05 R-5.5)", floor=1)
+    from . import c05 as _c05
+    from .shared import RuleProxy as _RP2b
+    ctx.attempt(_c05.r55, _RP2b(ctx, "R-2.11", " (for the lock subset `only [0-] idle` the P matrix [[1]] is not produced: IndexError)"))
     ctx.attempt(r26, ctx)
     ctx.rule("R-2.8", "index units in inf_retis: matrices of the idle block are indexed with the reduced minus count, full-size objects with self._offset", floor=6)
     ctx.attempt(r28, ctx)
@@ -996,6 +1000,7 @@ def run(ctx):
 
 
 VARIANTS = [
+    B("c02-minus-only-guard-strict", REPEX, "if len(sorted_non_locked_T) <= offset:", "if len(sorted_non_locked_T) < offset:", "R-2.11", control=True, why="seeded C02_f"),
     # R-2.1
     B("c02-sort-reads-stale-matrix", REPEX, "        self._last_prob = None\n        self.prob\n\n    def lock(self, ens):", "        self.prob\n\n    def lock(self, ens):", "R-2.1", control=True, why="swaps of the re-sort without invalidation"),
     B("c02-lock-without-invalidation", REPEX, "        # invalidate last prob\n        self._last_prob = None\n        assert self._locks[ens] == 0", "        assert self._locks[ens] == 0", "R-2.1", control=True),
